@@ -134,6 +134,8 @@ CORPUS = [
     ("C14", "R-C14-modes", B, "sasmodels/models/core_shell_bicelle.c", "    case 5: // half diagonal\n", "", "case removed (falls into case 4's return)"),
     ("C14", "R-C14-eqvol", B, "sasmodels/models/cylinder.c", "    return cbrt(M_PI*radius*radius*length/M_4PI_3);", "    return cbrt(M_PI*radius*radius*length/M_PI);", "eq. volume radius"),
     ("C14", "R-C14-interleave", B, "sasmodels/kernel_iq.c", "            result[2*q_index+0] += weight * F2;\n            result[2*q_index+1] += weight * F1;", "            result[2*q_index+0] += weight * F1;\n            result[2*q_index+1] += weight * F2;", "interleave swapped"),
+    ("C14", "R-C14-order-select", B, "sasmodels/models/core_shell_parallelepiped.c", "            length_2 = length_1;\n", "", "old minimum forgotten"),
+    ("C14", None, T, "sasmodels/models/core_shell_parallelepiped.c", "        if (lengths[ilen] < length_1) {", "        if (length_1 > lengths[ilen]) {", "comparison written the other way round"),
     # ---- C15 ------------------------------------------------------------
     ("C15", "R-C15-consume", B, "sasmodels/generate.py", "double(([248]|16)?(?=$|[^a-zA-Z0-9_]))", "double(([248]|16)?($|[^a-zA-Z0-9_]))", "boundary consumed again"),
     ("C15", "R-C15-float-lang", B, "sasmodels/generate.py", "    | [.]\\d+ ([eE][+-]?\\d+)?               # | PF (E)?", "    | [.]\\d+                              # | PF", "exponent branch dropped"),
@@ -141,6 +143,8 @@ CORPUS = [
     ("C15", "R-C15-dispatch", B, "sasmodels/generate.py", "    elif dtype == F32:\n        fbytes = 4", "    elif dtype == F32:\n        fbytes = 8", "FLOAT_SIZE for single"),
     ("C15", "R-C15-tgmath", B, "sasmodels/generate.py", "   | fabs | fmax | fmin\n", "   | fmax | fmin\n", "function dropped"),
     ("C15", "R-C15-keyword", B, "sasmodels/generate.py", "double(([248]|16)?(?=", "double(([2348]|16)?(?=", "bogus vector width"),
+    ("C15", "R-C15-headroom", B, "sasmodels/models/cylinder.c", "    *F2 = 1e-4 * s * s * total_F2;", "    *F2 = 1e-4 * s * s * s * total_F2 / s;", "length^9 intermediate"),
+    ("C15", None, T, "sasmodels/models/cylinder.c", "    *F2 = 1e-4 * s * s * total_F2;", "    *F2 = 1e-4 * (s * s) * total_F2;", "regrouped, same degrees"),
     # ---- C16 ------------------------------------------------------------
     ("C16", "R-C16-subs", B, "sasmodels/generate.py", "    model_refs = _call_pars(base_table.iq_parameters, subs)", "    model_refs = [\"_v.\" + p.id for p in base_table.iq_parameters]", "calls bypass the translation"),
     ("C16", "R-C16-ident-re", B, "sasmodels/generate.py", "_IDENT_RE = re.compile(r\"(?<![.0-9])([A-Za-z_][A-Za-z0-9_]*)\")", "_IDENT_RE = re.compile(r\"([A-Za-z_][A-Za-z0-9_]*)\")", "look-behind dropped"),
@@ -155,6 +159,8 @@ CORPUS = [
     ("C18", "R-C18-publish", B, "sasmodels/kerneldll.py", "            compile_model(source=filename, output=tmp_dll)", "            compile_model(source=filename, output=dll)", "compile onto the cache name"),
     ("C18", "R-C18-publish", B, "sasmodels/kerneldll.py", "        tmp_dll = \"%s.%d.tmp\"%(dll, os.getpid())", "        tmp_dll = joinpath(tempfile.gettempdir(), os.path.basename(dll))", "temporary on another file system"),
     ("C18", None, T, "sasmodels/kerneldll.py", "        tmp_dll = \"%s.%d.tmp\"%(dll, os.getpid())", "        tmp_dll = dll + \".%d.part\"%os.getpid()", "another temp-name scheme"),
+    ("C18", "R-C18-symbols", B, "sasmodels/generate.py", "        \"#define KERNEL_NAME %s_Iqxy\" % name,", "        \"#define KERNEL_NAME %s_Iq_xy\" % name,", "generator spells an entry point differently"),
+    ("C18", None, T, "sasmodels/generate.py", "    return model_info.name + \"_\" + variant", "    return \"%s_%s\" % (model_info.name, variant)", "same name, another string form"),
     # ---- C19 ------------------------------------------------------------
     ("C19", "R-C19-weights", B, "sasmodels/sesans.py", "        H0 = dq/(2*pi) * q", "        H0 = dq * q", "prefactor on H0 only"),
     ("C19", "R-C19-grid", B, "sasmodels/sesans.py", "        mask = ~(reptheta <= zaccept)", "        mask = (reptheta <= zaccept)", "mask polarity"),
